@@ -24,6 +24,13 @@ CHECKS = {
              "J_Frozen (TLC) checks each recorded execution against the protocol. Coverage of the package's @builder methods is measured by "
              "introspection (a method without a label is a machinery failure).",
         ref="6/C01", technique="TLA+ heap model of copy/effect sharing (PT_Sharing) explored by TLC with measured tables; call trees replayed on the code; TLC trace judge (J_Frozen)"),
+    "C09": dict(
+        text="PT_Builder specifies the setter semantics (limit/offset/slice/fetch_next/top: last writer wins per slot) and, per dialect, the row-limiting "
+             "tail PagTail, its parameter order PagParams and PagGrammatical. TLC enumerates every sequence of <=2 (quick) / <=3 (thorough) setter calls "
+             "with zero and positive values x with/without ORDER BY x 4 nesting positions (top level, subquery in FROM, set-operation operand, the set "
+             "operation itself); each history is executed under the six dialect classes inline and parameterised, and TLC (J_C09) folds the logged calls "
+             "through the spec and compares the real tail tokens and parameter list with the expected ones. Exhaustive over the stated product.",
+        ref="6/C09", technique="TLA+ builder state machine with per-dialect PagTail (PT_Builder); TLC-generated setter histories replayed; TLC trace judge (J_C09)"),
     "C15": dict(
         text="Same heap model and judge as C01 with the duplication actions enabled: PT_Sharing!Dup models copy.copy (shares what __copy__ does "
              "not re-copy), deepcopy and pickle (everything fresh); TLC proves Frozen for the intended tables and enumerates every history "
